@@ -355,6 +355,15 @@ def harness_build(bins, profile="release", features=(), timeout=1800):
         cmd.append("--release")
     for b in bins:
         cmd += ["--bin", b]
+    # binaries that use the type catalogue / wire helpers need the (slow to compile) `catalogue` feature of the crate
+    def _needs_catalogue(b):
+        try:
+            src = open(os.path.join(HARNESS, "src", "bin", b + ".rs")).read()
+        except OSError:
+            return True
+        return "wirelib" in src or "catalogue" in src
+    if any(_needs_catalogue(b) for b in bins) and "catalogue" not in features:
+        features = tuple(features) + ("catalogue",)
     if features:
         cmd += ["--features", ",".join(features)]
     try:
